@@ -51,6 +51,7 @@ type Stats struct {
 }
 
 type World struct {
+	skew             map[string]time.Duration // per client: offset of its wall clock (hook H7)
 	StaleCacheServed int32 // node-cache hits that returned a node whose shape changed after it was cached (see nodecache.go)
 	S                *Store
 	Clients          []*Client
@@ -84,6 +85,22 @@ var (
 )
 
 func init() {
+	s3db.VerifNow = func(endpoint string) time.Time {
+		name := strings.TrimPrefix(endpoint, "sim://")
+		if i := strings.Index(name, "/"); i >= 0 {
+			name = name[:i]
+		}
+		curMu.Lock()
+		w := current
+		curMu.Unlock()
+		if w == nil {
+			return time.Now()
+		}
+		w.mu.Lock()
+		d := w.skew[name]
+		w.mu.Unlock()
+		return time.Now().Add(d)
+	}
 	s3db.VerifS3 = func(opts *s3db.S3Options) (kv.S3Interface, bool) {
 		if !strings.HasPrefix(opts.Endpoint, "sim://") {
 			return nil, false
@@ -147,6 +164,19 @@ func NewWorld() *World {
 }
 
 func (w *World) Probe(name string) { w.Stats.Probes[name]++ }
+
+// SetSkew gives one client's process a wall clock that runs d ahead of (or
+// behind) the simulated time: version creation times and default write times
+// of that client are taken from it. Call before the client's first statement.
+func (w *World) SetSkew(client string, d time.Duration) {
+	w.mu.Lock()
+	defer w.mu.Unlock()
+	if w.skew == nil {
+		w.skew = map[string]time.Duration{}
+	}
+	w.skew[client] = d
+	w.Stats.Faults["clock-skew"]++
+}
 
 func (w *World) Batches2() int { return w.batch2 }
 
